@@ -446,3 +446,47 @@ Proof. reflexivity. Qed.
 
 Lemma neigh_cap_pos : 1 <= neigh_cap.
 Proof. unfold neigh_cap, cfg_IFACE_NEIGHBOR_CACHE_COUNT. lia. Qed.
+
+(* ---------- eviction: only when full, and then an entry with the smallest expiry ---------- *)
+
+Lemma swap_remove_keeps : forall l k x, In x l -> fst x <> k -> In x (lm_swap_remove l k).
+Proof.
+  induction l as [|y r IH]; simpl; intros k x H N; [tauto|].
+  destruct (ip_eqb (fst y) k) eqn:E.
+  - apply ip_eqb_eq in E. destruct H as [H|H]; [subst; contradiction|].
+    destruct r as [|z r']; [destruct H|]. apply In_last_removelast; [discriminate | exact H].
+  - destruct H as [H|H]; [left; exact H | right; apply IH; auto].
+Qed.
+
+Lemma NoDup_keys_inj : forall l a b, NoDup (keys l) -> In a l -> In b l -> fst a = fst b -> a = b.
+Proof.
+  induction l as [|y r IH]; simpl; intros a b ND Ha Hb E; [tauto|].
+  inversion ND as [|? ? Hn Hd]; subst.
+  destruct Ha as [Ha|Ha]; destruct Hb as [Hb|Hb]; subst; auto.
+  - exfalso; apply Hn. rewrite E. apply in_map; exact Hb.
+  - exfalso; apply Hn. rewrite <- E. apply in_map; exact Ha.
+Qed.
+
+Lemma fill_evicts_smallest : forall cap c k hw e x, cache_wf cap c ->
+  In x (c_storage c) -> fst x <> k ->
+  ~ In x (c_storage (neigh_fill_with_expiration cap c k hw e)) ->
+  cap <= Z.of_nat (length (c_storage c)) /\
+  forall y, In y (c_storage c) -> nb_expires (snd x) <= nb_expires (snd y).
+Proof.
+  intros cap c k hw e x [ND LEN] Hx Nk Hn. unfold neigh_fill_with_expiration in Hn.
+  destruct (lm_get (c_storage c) k) eqn:G.
+  - exfalso. apply Hn. cbn [c_storage]. clear -Hx Nk.
+    induction (c_storage c) as [|[k' v'] r IH]; simpl in *; [tauto|].
+    destruct (ip_eqb k' k) eqn:E.
+    + apply ip_eqb_eq in E. destruct Hx as [Hx|Hx]; [subst; simpl in Nk; contradiction | right; exact Hx].
+    + destruct Hx as [Hx|Hx]; [left; exact Hx | right; apply IH; exact Hx].
+  - destruct (Z.of_nat (length (c_storage c)) <? cap) eqn:L.
+    + exfalso. apply Hn. cbn [c_storage]. apply in_app_iff; left; exact Hx.
+    + split; [lia|]. destruct (c_storage c) as [|y0 r] eqn:ST; [destruct Hx|].
+      cbn [c_storage] in Hn.
+      assert (F : fst x = fst (lm_min y0 r)).
+      { destruct (ip_eqb (fst x) (fst (lm_min y0 r))) eqn:E; [apply ip_eqb_eq in E; exact E|].
+        apply ip_eqb_neq in E. exfalso. apply Hn. apply in_app_iff; left. apply swap_remove_keeps; auto. }
+      assert (X : x = lm_min y0 r) by (eapply NoDup_keys_inj; eauto; apply lm_min_In).
+      intros y Hy. rewrite X. apply lm_min_le. exact Hy.
+Qed.
